@@ -1,5 +1,6 @@
 //! unit: u04b
-//! properties: C04 C08
+//! properties: C04 C08 C02
+//! note: also run for C02: the code it constrains lies inside mechanisms those properties name (a change made there for their sake must meet these clauses too)
 //! note: MPP completion condition (check_incoming_mpp_part), its mirror in the MPP timeout (check_mpp_timeout), and the on-chain claim deadline test of one part (MppPart::check_onchain_timeout)
 //! trusted: R5: the generic H: HasMppPart + Ord is instantiated with MppPart (one of the two call-site types; its HasMppPart impl is extracted and verified); `impl Iterator<Item=&mut MppPart>` is instantiated as the elements of a Vec<MppPart> (the call sites pass iter_mut() of a vector); ChannelManager self stub (the body reads only self.logger, removed by R3)
 //! trusted: R6: `.iter().map(|h| V).sum()` and `.iter_mut().for_each(|h| S)` and `for h in <iter_mut>` become index loops carrying the closure body verbatim; sort_parts() is an external_body wrapper for Vec::sort (a permutation); RecipientOnionFields is a skeleton {total_mpp_amount_msat} and check_merge is external_body (keeps total_mpp_amount_msat, Ok only if both totals agree); HTLCPreviousHopData, PaymentHash opaque
